@@ -2,6 +2,7 @@ package sql
 
 import (
 	"fmt"
+	"strconv"
 	"strings"
 )
 
@@ -228,7 +229,7 @@ type FloatVal struct {
 }
 
 func (f *FloatVal) String(ctx *Ctx, options ...int) (string, error) {
-	return fmt.Sprintf("%f", f.val), nil
+	return strconv.FormatFloat(f.val, 'f', -1, 64), nil
 }
 
 func NewFloatVal(f float64) SQLObject {
